@@ -405,6 +405,20 @@ def check(ctx):
                     ctx.oblige("R-C12.2", f"{tcls}.{a2} fresh in __init__", ok)
                     if not ok:
                         viol("R-C12.2", tc.mod, f"{tcls}.__init__", init, f"{tcls} is re-created for every parse but its state attribute {a2} is not given a fresh value in __init__", keyextra=f"init:{a2}")
+    # a memoising decorator is per-instance / per-process state that no entry point re-initialises: the result for (self, args) is remembered
+    # although it depends on instance attributes (file name, scope tables, text) that the next parse replaces
+    from .c13 import CACHE_DECORATORS
+    for mod in mods:
+        for fn in ast.walk(mod.tree):
+            if isinstance(fn, (ast.FunctionDef, ast.AsyncFunctionDef)):
+                for d in fn.decorator_list:
+                    dn = S.unparse(d.func if isinstance(d, ast.Call) else d)
+                    bad = dn in CACHE_DECORATORS
+                    if d is fn.decorator_list[0] or bad:
+                        ctx.oblige("R-C12.2", f"{mod.name}.{fn.name}: decorator {dn}", not bad, nontrivial=False)
+                    if bad:
+                        viol("R-C12.2", mod, S.qualname(mod, fn), d, f"`@{dn}` on {fn.name} remembers results across parse() / input() calls and is never cleared: a value computed from the previous text, file name or "
+                             "scope state is handed out to the next parse", keyextra=f"memo:{fn.name}")
     ctx.require_instances("R-C12.2", 9)
 
     # ---- R-C12.3 nodes only created inside functions ---------------------
